@@ -65,6 +65,8 @@ ENTITIES = {
     "CARRIER": ([], [("load", ref("POINT", "DPOINT"), False, False), ("note", STR, False, False)]),
     "DCARRIER": (["CARRIER"], [("extra", INT, False, False)]),
     "LCARRIER": (["CARRIER"], []),
+    "USER_B": ([], [("u", ref("UNIT_B"), False, False), ("bs", ("select", [(None, ref("LEFTY", "EXTRA"))]), True, False),
+                    ("many", agg(ref("BASE")), False, False)]),
     "BASE2": ([], [("bn", NUMBER, False, False), ("bt", STR, False, False)]),
     "RED2": (["BASE2"], [("rs", STR, False, False)]),
 }
@@ -280,15 +282,21 @@ class Gen:
                 chosen = None
             kinds.append(chosen or r.choice(concrete))
         ids_by_ent = {}
+        combos = {}
         for i, k in zip(ids, kinds):
             if k != "COMPLEX":
                 ids_by_ent.setdefault(k, []).append(i)
                 for sup in self.S.supertypes(k):
                     ids_by_ent.setdefault(sup, []).append(i)
+            else:
+                # an instance in external mapping is of the type of each of its parts (and of their supertypes)
+                combos[i] = list(r.choice(self.S.COMPLEX_LEGAL))
+                for e in set(combos[i]) | set(s_ for p_ in combos[i] for s_ in self.S.supertypes(p_)):
+                    ids_by_ent.setdefault(e, []).append(i)
         insts = []
         for i, k in zip(ids, kinds):
             if k == "COMPLEX":
-                combo = list(r.choice(self.S.COMPLEX_LEGAL))
+                combo = combos[i]
                 order = combo[:]
                 if self.fancy:
                     r.shuffle(order)
